@@ -89,8 +89,8 @@ pub fn run_c02(out: &mut Out, seed: u64, thorough: bool) {
         if i < 3 {
             out.sample(format!("{} => {}", text.replace('\n', "\\n").replace('\r', "\\r").replace('\t', "\\t"), r));
         }
-        out.emit(&format!("compile {}", ser), &r);
-        out.emit(&format!("spec.encode {}", ser), &r);
+        out.emit(&format!("compile {} {}", hexs(&text), ser), &r);
+        out.emit(&format!("spec.encode {} {}", hexs(&text), ser), &r);
         out.distinct_case(&ser);
         out.count(if r.starts_with("ok") { "compiled" } else { "panicked" });
     }
@@ -115,8 +115,8 @@ pub fn run_c06(out: &mut Out, seed: u64, thorough: bool) {
         if i < 2 {
             out.sample(format!("{} => {}", text.replace('\n', "\\n").replace('\r', "\\r").replace('\t', "\\t"), r));
         }
-        out.emit(&format!("compileload {}", ser), &r);
-        out.emit(&format!("spec.c06 {}", ser), &r);
+        out.emit(&format!("compileload {} {}", hexs(&text), ser), &r);
+        out.emit(&format!("spec.c06 {} {}", hexs(&text), ser), &r);
         out.distinct_case(&ser);
         out.count(&r);
     }
@@ -155,8 +155,8 @@ fn directed(out: &mut Out, src: &str) {
         Ok(p) => {
             let ser = astser::asm(&p);
             let r = compile_load_str(&p);
-            out.emit(&format!("compileload {}", ser), &r);
-            out.emit(&format!("spec.c06 {}", ser), &r);
+            out.emit(&format!("compileload {} {}", hexs(src), ser), &r);
+            out.emit(&format!("spec.c06 {} {}", hexs(src), ser), &r);
             out.count(&format!("directed:{}", r));
         }
         Err(_) => out.count("directed-rejected"),
@@ -165,6 +165,46 @@ fn directed(out: &mut Out, src: &str) {
 
 // ---------------------------------------------------------------------------------------------
 // C03 / C16
+
+fn roundtrip_str(parsed: &Asm, rendered: &str) -> String {
+    match catch_unwind(AssertUnwindSafe(|| AsmParser::parse(rendered))) {
+        Ok(Ok(again)) => {
+            if &again == parsed {
+                "same".to_string()
+            } else {
+                "differs".to_string()
+            }
+        }
+        Ok(Err(_)) => "rejected".to_string(),
+        Err(_) => "panic".to_string(),
+    }
+}
+
+/// The implementation's answer to one self-contained assembler line (replay): the source text is
+/// the first argument (hex), the real parser / translator / formatter are run on it again.
+pub fn eval_line(ws: &[&str]) -> Option<String> {
+    let head = *ws.first()?;
+    if !["compile", "spec.encode", "compileload", "spec.c06", "fmt", "parse", "spec.parse", "spec.noparsepanic", "spec.reject",
+        "spec.accept", "spec.roundtrip"].contains(&head) {
+        return None;
+    }
+    let text = String::from_utf8(crate::sess::parse_hex(ws.get(1)?)?).ok()?;
+    let parsed = || catch_unwind(AssertUnwindSafe(|| AsmParser::parse(&text))).ok().and_then(|r| r.ok());
+    Some(match head {
+        "compile" | "spec.encode" => compile_str(&parsed()?),
+        "compileload" | "spec.c06" => compile_load_str(&parsed()?),
+        "fmt" => hexs(&format!("{}", parsed()?)),
+        "parse" | "spec.parse" => parse_str(&text),
+        "spec.noparsepanic" => (if parse_str(&text) == "panic" { "panic" } else { "ok" }).to_string(),
+        "spec.reject" | "spec.accept" => (if parse_str(&text).starts_with("ok") { "accepted" } else { "reject" }).to_string(),
+        "spec.roundtrip" => {
+            let p = parsed()?;
+            let rendered = format!("{}", p);
+            roundtrip_str(&p, &rendered)
+        }
+        _ => return None,
+    })
+}
 
 fn hexs(s: &str) -> String {
     if s.is_empty() {
@@ -367,19 +407,9 @@ pub fn run_c16(out: &mut Out, seed: u64, thorough: bool) {
         };
         let rendered = format!("{}", parsed);
         // model of the formatter
-        out.emit(&format!("fmt {}", astser::asm(&parsed)), &hexs(&rendered));
+        out.emit(&format!("fmt {} {}", hexs(&text), astser::asm(&parsed)), &hexs(&rendered));
         // the property itself on the real code
-        let rt = match catch_unwind(AssertUnwindSafe(|| AsmParser::parse(&rendered))) {
-            Ok(Ok(again)) => {
-                if again == parsed {
-                    "same".to_string()
-                } else {
-                    "differs".to_string()
-                }
-            }
-            Ok(Err(_)) => "rejected".to_string(),
-            Err(_) => "panic".to_string(),
-        };
+        let rt = roundtrip_str(&parsed, &rendered);
         if i < 2 {
             out.sample(format!("{} => {}", rendered.replace('\n', "\\n"), rt));
         }
